@@ -58,7 +58,7 @@ def gen_matrix(g, n, m, regime):
 
 def generate(prop, seed, tier):
     g = Stream(seed, 'gen')
-    api = g.choice(['semiring', 'semiring', 'patterned', 'multi_solve', 'multi_solve', 'multi_mv'])
+    api = g.choice(['semiring', 'semiring', 'patterned', 'patterned', 'multi_solve', 'multi_solve', 'multi_mv'])
     sem = g.choice(SEMS)
     regime = g.choice(['small', 'small', 'mixed', 'big', 'inf', 'cycle'])
     case = {'engine': 'linsolve', 'prop': prop, 'seed': seed, 'api': api, 'semiring': sem, 'regime': regime,
@@ -85,7 +85,7 @@ def generate(prop, seed, tier):
         # index type T = factor x factor, factor = atom(n) | sum(m1, m2)
         facs = []
         tot = 1
-        if g.random() < 0.3:
+        if g.random() < 0.45:
             # equal factors: lets a's columns be a rotation of its rows (the solution's pattern then grows over several steps)
             f = g.choice([['atom', 2], ['sum', 1, 1]])
             facs = [list(f) for _ in range(g.choice([2, 3]))]
